@@ -23,11 +23,12 @@ build_harness() {
 case "${1:-}" in
 setup)
     build_harness || exit 2
-    if [ -d "$ROOT/fuzz" ]; then
-        if (cd "$ROOT/fuzz" && cargo +nightly fuzz build -O >"$ROOT/.work/fuzz-build.log" 2>&1); then
+    # E3 (thorough tiers only): cargo-fuzz targets; no sanitizer (kiki has no unsafe code, ASan costs ~10x)
+    if [ -d "$ROOT/harness/fuzz" ]; then
+        if (cd "$ROOT/harness" && cargo +nightly fuzz build -O -s none >"$ROOT/.work/fuzz-build.log" 2>&1); then
             echo "fuzz targets built"
         else
-            echo "fuzz build unavailable; thorough tiers will skip the libFuzzer part (see .work/fuzz-build.log)" >&2
+            echo "fuzz build unavailable; thorough tiers will skip the libFuzzer part and say so in their evidence (see .work/fuzz-build.log)" >&2
         fi
     fi
     echo "setup ok"
@@ -41,6 +42,11 @@ C[0-9][0-9])
     id="$1"
     tier="${2:-${VERIF_TIER:-quick}}"
     build_harness || { echo "INCONCLUSIVE property=$id harness does not build against the current /repo tree"; exit 2; }
+    if [ "$tier" = "thorough" ] && [ -d "$ROOT/harness/fuzz" ]; then
+        # the fuzz targets link kiki too: rebuild them from the current tree (cargo fingerprints make this a no-op when nothing changed)
+        (cd "$ROOT/harness" && cargo +nightly fuzz build -O -s none >"$ROOT/.work/fuzz-build.log" 2>&1) || \
+            { echo "fuzz targets do not build; removing stale binaries so that the run records the E3 part as skipped" >&2; rm -rf "$ROOT/harness/fuzz/target/x86_64-unknown-linux-gnu/release/"{text_frontend,grammar_struct,oset_ops,hash_header}; }
+    fi
     exec "$ROOT/harness/target/release/verif" check "$id" --tier "$tier"
     ;;
 *)
